@@ -130,4 +130,10 @@ var plans = map[string]plan{
 		Rule:     "cases are (parameters at path level, operation level or both (an override whose two declarations accept disjoint values, so that consulting the wrong one flips the verdict), each absent / valid-for-one / valid-for-the-other; JSON body none / valid / invalid / absent-but-required; operation-level and document-level security requirement lists of 8 shapes; callback outcome per scheme; options MultiError, ExcludeRequestBody, ExcludeRequestQueryParams; missing AuthenticationFunc). enum stage: the security truth table (8 x 8 lists x 8 outcome tables x 2 modes) and the parts truth table (3 locations x 27 send combinations x 3 bodies x 8 option sets), complete; rapid stage: random combinations. Oracle: truth-table model; in multi-error mode the members must be exactly the failing parts; the callback log must stay inside the effective requirement list. non-trivial = an override is present, both security levels are declared, >= 2 requirements, or an exclusion option is set. distinct = FNV-64a of the canonical case JSON.",
 		Assume:   []string{"validity of each part is known by construction (values 1 / 99 against maximum 10 / minimum 50)"},
 	},
+	"C08": {
+		Quick:    []stage{enumStage(), rapidStage(4_000)},
+		Thorough: []stage{enumStage(), rapidStage(200_000)},
+		Rule:     "cases are (declared response keys among exact codes, 2XX/4XX/5XX and default; status; request method; which entry's required marker header the response carries (the selected entry is observable through the verdict); an extra declared header of kind integer / array / string, sent or not, required or not; JSON content with a schemagen schema incl. readOnly/writeOnly and a schema-directed body, undecodable bodies, several Content-Types; options IncludeResponseStatus, ExcludeResponseBody, ExcludeWriteOnlyValidations, MultiError). enum stage: every subset of <= 3 of 7 keys x 18 statuses x target x strict x method, complete; rapid stage: the rest. Oracle: selection model (exact, class, default; HEAD and 301/304/307/308 unchecked), header and body verdicts from the reference evaluator read as a response; the body must read back byte for byte afterwards. non-trivial = keys of >= 2 kinds, an array header, or readOnly/writeOnly in the schema. distinct = FNV-64a of the canonical case JSON.",
+		Assume:   []string{"headers defined by content are not decodable by the library and are covered by C10 only"},
+	},
 }
